@@ -348,6 +348,8 @@ func anyBody(t *rapid.T) ([]byte, string) {
 		return ManyStatements(t), "many-statements"
 	case 3, 4:
 		return Segments(t), "segments"
+	case 6:
+		return NumberSoup(t), "number-lookalikes"
 	case 5:
 		// trees that are returned together with the grammar's own reports (by-reference foreach key, trait with
 		// extends / implements): well-formed syntax, built by action code no valid program reaches
@@ -372,6 +374,44 @@ func anyBody(t *rapid.T) ([]byte, string) {
 	}
 }
 
+var compileTimeInvalid = []string{
+	"class A { public static private function f() {} }", "class A { static public static $x; }", "class A { abstract final function f(); }", "class A { final static final function f() {} }",
+	"class A { public protected $p = 1; }", "class A { abstract public abstract function g(); }", "class A { private static protected static function h() {} }",
+	"abstract final class B {}", "class A { abstract function f() {} }", "interface I { public $p; }", "interface I { private function f(); }", "class A { var var $x; }",
+	"function f($a, $a) {}", "function f(...$a, $b) {}", "function f(...$a = 1) {}", "function f($this) {}", "function f(array ...$a = []) {}",
+	"break;", "continue 2;", "break 0;", "function g() { __halt_compiler(); }", "if ($a) { __halt_compiler(); }", "class A { function f() { class B {} } }",
+	"namespace A; namespace B { }", "$a = 1; namespace C;", "function f() { namespace D; }", "function f() { use A\\B; }", "function f() { const X = 1; }",
+	"$this = 1;", "list() = $a;", "[] = $a;", "[$a, [$b]] = [1, [2]];", "list(list()) = $a;", "isset(1 + 1);", "unset(f());", "f() = 1;", "1 = $a;", "new class { public public $x; };",
+	"goto a; while (1) { a: }", "a: a: ;", "static $x = f();", "const A = $b;", "class A { const B = $c; }", "global $a->b;", "yield 1;", "function f() { yield; return 1; }",
+	"try { } finally { } finally { }", "switch ($a) { default: default: }", "class A extends B, C {}", "class A { use T { f as public private g; } }", "declare(foo=1);", "declare(ticks=$a);",
+	"echo <<<A\n$\nA;\n", "$a = &new B;", "function &f(): void {}", "function f(): static {}", "fn($a) => yield;", "class A { public function __construct(public $x) {} }",
+}
+
+// numberPieces: literals and near-literals of every numeric form — the scanner decides per lexeme
+// between integer, float, "too large", and no number at all (PHP 7 rejects "08", PHP 5 reads it as 0).
+var numberPieces = []string{
+	"0", "00", "007", "0777", "08", "09", "019", "089", "0_9", "0_7", "1_000", "1__0", "1_", "_1", "0x1F", "0X1f", "0x", "0xG", "0x_1", "0b11", "0B2", "0b", "0b102",
+	"9223372036854775807", "9223372036854775808", "0x7FFFFFFFFFFFFFFF", "0x8000000000000000", "0777777777777777777777", "01777777777777777777777",
+	"0b111111111111111111111111111111111111111111111111111111111111111", "0b1000000000000000000000000000000000000000000000000000000000000000",
+	"1e3", "1E+3", "1e", "1e+", "1e-3", ".5", "5.", "0.", "1.5e-3", "0e0", "1_000.5", "1.5_0", "1._5", "1e1_0", "00.5", "09.5", "0x1.5", "1..2", ".5.5", "12", "1", "99999999999999999999", "1e999",
+}
+
+// NumberSoup puts one to three number pieces (optionally joined by an operator or nothing) into the
+// operand position of a small valid statement. Whatever the scanner makes of them, the checks' generic
+// clauses apply: an error is reported, or the tokens of the returned tree cover the whole text.
+func NumberSoup(t *rapid.T) []byte {
+	var x []byte
+	for i, k := 0, rapid.IntRange(1, 3).Draw(t, "npieces"); i < k; i++ {
+		if i > 0 {
+			x = append(x, rapid.SampledFrom([]string{"", " ", "+", "-", ".", " . ", "*", ",", "=>", "_", "e", "x"}).Draw(t, "glue")...)
+		}
+		x = append(x, rapid.SampledFrom(numberPieces).Draw(t, "number")...)
+	}
+	frame := rapid.SampledFrom([][2]string{{"<?php $a = ", ";"}, {"<?php f(", ", 1);"}, {"<?php echo ", ", 1;"}, {"<?php $a = [", " => 1];"}, {"<?php return ", ";"}, {"<?php $a[", "] = 1;"},
+		{"<?php $a = -", ";"}, {"<?php ", ";"}, {"<?php ", ""}, {"<?php $a = \"$b[", "]\";"}, {"<?php const A = ", ";"}, {"<?php function f($x = ", ") {}"}}).Draw(t, "frame")
+	return append(append([]byte(frame[0]), x...), frame[1]...)
+}
+
 // SemanticErrorProgram draws a program that is syntactically well-formed but
 // that the grammars reject with their own reports (by-reference foreach key,
 // trait with extends/implements), mixed with ordinary statements.
@@ -384,7 +424,12 @@ func SemanticErrorProgram(t *rapid.T) []byte {
 	b = append(b, "<?php "...)
 	n := rapid.IntRange(1, 3).Draw(t, "n")
 	for i := 0; i < n; i++ {
-		switch rapid.IntRange(0, 5).Draw(t, "kind") {
+		switch rapid.IntRange(0, 8).Draw(t, "kind") {
+		case 6, 7, 8:
+			// well-formed for a lenient grammar, rejected by PHP's compiler: whether the parser reports them or
+			// not, every clause about returned trees applies (repeated / conflicting modifiers, misplaced
+			// statements, duplicate names ...)
+			b = append(b, (rapid.SampledFrom(compileTimeInvalid).Draw(t, "invalid") + " ")...)
 		case 0, 1, 2:
 			b = append(b, ("foreach (" + rapid.SampledFrom(subjects).Draw(t, "subject") + " as " + rapid.SampledFrom(amp).Draw(t, "amp") + "$k => " + rapid.SampledFrom(values).Draw(t, "value") + ") " + rapid.SampledFrom(bodies).Draw(t, "body") + " ")...)
 		case 3:
